@@ -71,7 +71,12 @@ def _elem(e):
 
 
 class SArr(ex.XArr):
-    """XArr with symbolic-index select / scatter"""
+    """XArr with symbolic-index select / scatter.  `.dtype` (as seen by the code under test) reports
+    the numpy dtype the array would have: int64 for integer-kind arrays, float64 otherwise."""
+
+    @property
+    def dtype(self):
+        return np.dtype("int64") if self.ikind else np.dtype("float64")
 
     def __getitem__(self, key):
         if isinstance(key, SI):
@@ -150,6 +155,23 @@ class NP20(ex.XNP):
 
     def zeros_like(self, a, dtype=None, **k):
         return sarr([ex.R(0)] * np.size(a), np.shape(a))
+
+    def _alloc(self, shape, dtype):
+        if isinstance(shape, (int, np.integer)):
+            shape = (int(shape),)
+        n = int(np.prod(shape)) if len(shape) else 1
+        out = sarr([ex.R(0)] * n, tuple(shape))
+        try:
+            out.ikind = dtype is not None and np.dtype(dtype).kind in "iu"
+        except TypeError:
+            out.ikind = False
+        return out
+
+    def empty(self, shape, dtype=float, **k):
+        return self._alloc(shape, dtype)
+
+    def zeros(self, shape, dtype=float, **k):
+        return self._alloc(shape, dtype)
 
     def empty_like(self, a, dtype=None, **k):
         out = sarr([ex.R(0)] * np.size(a), np.shape(a))
